@@ -52,6 +52,15 @@ func genNode(r *kit.Rand, id int, nPools int) jNode {
 			n.Pool = 0
 		}
 	}
+	if !n.Init && r.Chance(1, 2) {
+		n.Unregistered = true // launched but the kubelet has not joined (no registered label)
+	}
+	if r.Chance(1, 16) {
+		n.Init, n.Unregistered = true, true // a contradictory label pair: only the initialized label is read
+	}
+	if r.Chance(1, 10) {
+		n.NotConsolidatable = true
+	}
 	return n
 }
 
@@ -64,6 +73,16 @@ func genPools(r *kit.Rand, nPools int) []jPool {
 			b.Empty = false // the empty-slice shape is exercised (and tagged) in part A1 only
 			p.Budgets = append(p.Budgets, b)
 		}
+		switch r.Intn(10) {
+		case 0:
+			p.Unmanaged = i > 1
+		case 1:
+			p.NoInstanceTypes = true
+		case 2:
+			p.NoConsolidation = true
+		case 3:
+			p.Policy = string(v1.ConsolidationPolicyBalanced)
+		}
 		pools = append(pools, p)
 	}
 	return pools
@@ -71,8 +90,16 @@ func genPools(r *kit.Rand, nPools int) []jPool {
 
 func runMapping(c *kit.Ctx, now int64, reason v1.DisruptionReason, pools []jPool, nodes []jNode) {
 	w := newWorld(now)
-	for _, p := range pools {
+	all := pools
+	pools = nil
+	for _, p := range all {
 		w.addPool(p)
+		if p.Unmanaged {
+			// a NodePool whose NodeClass kind the provider does not support is not listed: no entry (reads 0)
+			c.Count("M:pool=foreign-nodeclass")
+			continue
+		}
+		pools = append(pools, p)
 	}
 	for _, n := range nodes {
 		w.addNode(n)
@@ -116,7 +143,7 @@ func runMapping(c *kit.Ctx, now int64, reason v1.DisruptionReason, pools []jPool
 	}
 	key := fmt.Sprintf("M:%d|%s|%s|%s", len(nodes), reason, gn, strings.Join(sig, ","))
 	c.AddCase(fmt.Sprintf("CaseM %s %s %s %s %s", kit.GZ(now), gReason(reason), gp, gn, gMapping(m, pools)),
-		caseM{"mapping", now, string(reason), pools, nodes, m}, key)
+		caseM{"mapping", now, string(reason), all, nodes, m}, key)
 }
 
 // boundaryPool builds a pool whose percentage budget sits at a round-up boundary: pct% of the n
